@@ -282,6 +282,7 @@ package builder
 // occupied (the reader refuses a shard without it).
 //@ func data/builder.Data
 //@ calls github.com/ipld/go-ipld-prime/fluent/qp.MapEntry
+//@ forbids fmt.Errorf errors.New
 //@ prop C02 C09
 //@ at call github.com/ipld/go-ipld-prime/fluent/qp.MapEntry#1 assert sets-the-Data-field: callee_k == "Data"
 //@ at call github.com/ipld/go-ipld-prime/fluent/qp.Bytes#1 assert with-the-bytes-given: callee_p == dataBytes
@@ -302,16 +303,19 @@ package builder
 //@ at call github.com/ipld/go-ipld-prime/fluent/qp.Int#1 assert with-the-value-given: callee_i == dataType
 //@ func data/builder.FileSize
 //@ calls github.com/ipld/go-ipld-prime/fluent/qp.MapEntry
+//@ forbids fmt.Errorf errors.New
 //@ prop C01 C07 C09 C11
 //@ at call github.com/ipld/go-ipld-prime/fluent/qp.MapEntry#1 assert sets-the-FileSize-field: callee_k == "FileSize"
 //@ at call github.com/ipld/go-ipld-prime/fluent/qp.Int#1 assert with-the-value-given: callee_i == int64(fileSize)
 //@ func data/builder.HashType
 //@ calls github.com/ipld/go-ipld-prime/fluent/qp.MapEntry
+//@ forbids fmt.Errorf errors.New
 //@ prop C09 C11
 //@ at call github.com/ipld/go-ipld-prime/fluent/qp.MapEntry#1 assert sets-the-HashType-field: callee_k == "HashType"
 //@ at call github.com/ipld/go-ipld-prime/fluent/qp.Int#1 assert with-the-value-given: callee_i == int64(hashType)
 //@ func data/builder.Fanout
 //@ calls github.com/ipld/go-ipld-prime/fluent/qp.MapEntry
+//@ forbids fmt.Errorf errors.New
 //@ prop C09 C11
 //@ at call github.com/ipld/go-ipld-prime/fluent/qp.MapEntry#1 assert sets-the-Fanout-field: callee_k == "Fanout"
 //@ at call github.com/ipld/go-ipld-prime/fluent/qp.Int#1 assert with-the-value-given: callee_i == int64(fanout)
@@ -321,6 +325,7 @@ package builder
 //@ at call github.com/ipld/go-ipld-prime/fluent/qp.Int#1 assert with-the-value-given: callee_i == seconds
 //@ func data/builder.Permissions
 //@ calls github.com/ipld/go-ipld-prime/fluent/qp.MapEntry
+//@ forbids fmt.Errorf errors.New
 //@ prop C09
 //@ at call github.com/ipld/go-ipld-prime/fluent/qp.MapEntry#1 assert sets-the-Mode-field: callee_k == "Mode"
 //@ at call github.com/ipld/go-ipld-prime/fluent/qp.Int#1 assert with-the-low-twelve-bits: callee_i == int64(old(mode) & 4095)
@@ -331,6 +336,7 @@ package builder
 //@ at call github.com/ipld/go-ipld-prime/fluent/qp.Int#1 assert with-the-value-given: callee_i == int64(nanoseconds) && 0 <= callee_i && callee_i <= 999999999
 //@ func data/builder.BlockSizes
 //@ calls github.com/ipld/go-ipld-prime/fluent/qp.MapEntry
+//@ forbids fmt.Errorf errors.New
 //@ prop C01 C07 C09 C11
 //@ at call github.com/ipld/go-ipld-prime/fluent/qp.MapEntry#1 assert sets-the-BlockSizes-field: callee_k == "BlockSizes"
 //@ at call github.com/ipld/go-ipld-prime/fluent/qp.List#1 assert one-entry-per-size: callee_sizeHint == int64(len(blockSizes))
@@ -343,6 +349,7 @@ package builder
 // the order of the three fields), and nothing else is assembled.
 //@ func data/builder.BuildUnixFSDirectoryEntry
 //@ prop C02 C11 C18
+//@ forbids fmt.Errorf errors.New
 //@ ensures entry-or-error: (err == nil ==> result != nil) && (err != nil ==> result == nil)
 //@ at call (github.com/ipld/go-ipld-prime/datamodel.NodeAssembler).AssignLink#0 assert the-target-goes-under-Hash: asmFor(callee_recv) == "Hash" && callee_a0 == old(hash)
 //@ at call (github.com/ipld/go-ipld-prime/datamodel.NodeAssembler).AssignInt#0 assert the-size-goes-under-Tsize: asmFor(callee_recv) == "Tsize" && callee_a0 == old(size)
